@@ -223,10 +223,9 @@ func (c *converter) Panic(value string) error {
 }
 
 func (c *converter) WriteFile(path string, content string, append string) error {
-	helper := c.nextHelperVar()
-
-	c.VarAssignment(helper, fmt.Sprintf(`$(if [ "%s" -eq "%s" ]; then echo ">>"; else echo ">"; fi)`, append, transpiler.BoolToString(true)), false)
-	c.addLine(fmt.Sprintf(`eval "echo \"%s\" %s %s"`, content, c.varEvaluationString(helper, false), path))
+	// No eval here: path and content must reach the file as they are (blanks, quotes, "$", ...).
+	c.addLine(fmt.Sprintf(`if [ "%s" -eq "%s" ]; then printf '%%s\n' "%s" >> "%s"; else printf '%%s\n' "%s" > "%s"; fi`,
+		append, transpiler.BoolToString(true), content, path, content, path))
 	return nil
 }
 
